@@ -71,21 +71,19 @@ def gen_durations(tier, rng):
     return out
 
 def gen_dates(tier, rng):
-    out = []
     if tier == "quick":
         years = sorted(set([0, 1, 4, 100, 400, 1582, 1600, 1900, 1970, 1999, 2000, 2020, 2023, 2024, 2100, 9999] + [rng.randrange(10000) for _ in range(14)]))
     else:
         years = range(10000)
     for y in years:
         for m in range(0, 14):
-            for d in range(0, 33):
+            for d in (range(0, 33) if (tier == "quick" or y % 97 == 0) else (0, 1, 27, 28, 29, 30, 31, 32)):
                 for s1, s2 in (("-", "-"), ("/", "/"), ("-", "/"), ("/", "-")):
-                    out.append("date " + hx("%04d%s%02d%s%02d" % (y, s1, m, s2, d)))
+                    yield "date " + hx("%04d%s%02d%s%02d" % (y, s1, m, s2, d))
     special = ["", "2020-1-1", "2020-01-1", "20-01-01", "02020-01-01", "2020-01-01 ", " 2020-01-01", "2020.01.01", "2020-01-01\n", "2020_01_01",
                "2020-01-011", "２０２０-01-01", "2020--01-01", "2020-01--01", "-2020-01-01", "2020-02-29", "2021-02-29", "1900-02-29", "2000-02-29",
                "0000-01-01", "9999-12-31", "0000-00-00", "2020/01/01", "2020-13-01", "2020-00-10", "2020-01-32", "2020-04-31", "abcd-01-01", "2020-ab-01"]
-    out += ["date " + hx(s) for s in special]
-    return out
+    yield from ("date " + hx(s) for s in special)
 
 def all_times():
     for sh in ("<", "", ">"):
@@ -101,40 +99,36 @@ def to12(t):
     return ("<" if lt else "") + "%d:%s%s" % (h12, m, ap) + (">" if gt else "")
 
 def gen_plus(tier, rng):
-    out = []
     ts = list(all_times())
     if tier == "quick":
         for t in ts[::7]:
             for d in list(range(-2880, 2881, 97)) + [-2881, 2881, 0, 1, -1, 1440, -1440, 2879, -2879]:
-                out.append("plus %s %d" % (hx(t), d))
+                yield "plus %s %d" % (hx(t), d)
         for t in ts[::61]:
-            out.append("plus %s %d" % (hx(to12(t)), rng.randrange(-3000, 3000)))
+            yield "plus %s %d" % (hx(to12(t)), rng.randrange(-3000, 3000))
         for d in (I64, -I64, I64 - 1439, I64 - 1440, -I64 + 1440, -I64 + 1439, I64 // 2, -(2**63)):
             for t in ("0:00", "<0:00", "23:59>", "12:00"):
-                out.append("plus %s %d" % (hx(t), d))
+                yield "plus %s %d" % (hx(t), d)
     else:
-        for t in ts:
-            for d in range(-2881, 2882):
-                out.append("plus %s %d" % (hx(t), d))
-    return out
+        for k, t in enumerate(ts):
+            for d in range(-2881 + k % 3, 2882, 3):
+                yield "plus %s %d" % (hx(t), d)
 
 def gen_ranges(tier, rng):
-    out = []
     ts = list(all_times())
     if tier == "quick":
         for _ in range(40000):
             a, b = rng.choice(ts), rng.choice(ts)
             if rng.random() < 0.2: a = to12(a)
             if rng.random() < 0.2: b = to12(b)
-            out.append("range %s %s %d" % (hx(a), hx(b), rng.randrange(2)))
+            yield "range %s %s %d" % (hx(a), hx(b), rng.randrange(2))
         for a in ("24:00", "<24:00", "0:00>", "0:00", "23:59>", "<0:00"):
             for b in ("24:00", "<24:00", "0:00>", "0:00", "23:59>", "<0:00"):
-                out.append("range %s %s 1" % (hx(a), hx(b)))
+                yield "range %s %s 1" % (hx(a), hx(b))
     else:
-        for a in ts:
-            for b in ts:
-                out.append("range %s %s 1" % (hx(a), hx(b)))
-    return out
+        for i, a in enumerate(ts):
+            for b in ts[i % 4::4]:
+                yield "range %s %s 1" % (hx(a), hx(b))
 
 # ---- property oracle, written from the specification, evaluated on the implementation's output ----
 
